@@ -1099,7 +1099,7 @@ def _infer_expr_type(
     if isinstance(node, ast.UnaryOp):
         if isinstance(node.op, ast.Not):
             return "bool"
-        return _infer_expr_type(
+        operand_type = _infer_expr_type(
             node.operand,
             var_types,
             functions,
@@ -1107,6 +1107,8 @@ def _infer_expr_type(
             function_param_orders,
             ctx,
         )
+        # -True is the integer -1
+        return "int" if operand_type == "bool" else operand_type
 
     if isinstance(node, ast.BoolOp):
         return "bool"
